@@ -5,7 +5,7 @@ CONSTANTS
   InitRestated = TRUE
   OriginFromSuper = FALSE
   AllowModifyBusy = TRUE
-  SigCheck = FALSE
+  SigCheck = TRUE
   Parent <- Chain3
   Mode = "dyn"
   QSels = {{}}
